@@ -84,7 +84,9 @@ def default_elem(m):
 # ------------------------------------------------------------------------------ the check
 
 def run(ctx):
-    ctx.trusted += ['change of variables int_{F(K^)} p = |det A| int_{K^} p o F and additivity of the integral over the cells are '
+    ctx.trusted += ['thorough tier: coqchk re-checks all modules except the generated Gen.C02Elems (per-element vm_compute lemmas), '
+                    'which is checked by the coqc kernel only',
+                    'change of variables int_{F(K^)} p = |det A| int_{K^} p o F and additivity of the integral over the cells are '
                     'the definition of the exact integral over a physical cell (not formalised)',
                     'exactness of the reference rules is property C08 (2^-45); NumPy broadcasting / einsum in Functional and the '
                     'basis classes is covered by the oracle only',
@@ -129,6 +131,10 @@ def run(ctx):
                          {'traceback': traceback.format_exc()[-3000:], 'seed': ctx.seed})
     # the oracle (pure Python) runs in a second thread while coqc compiles
     from concurrent.futures import ThreadPoolExecutor
+    # thorough tier: coqchk (no VM) re-checks everything except the generated module of reference matrices, whose lemmas
+    # are pure VM computations (checked by the coqc kernel)
+    from .c08 import _patch_coqchk
+    _patch_coqchk(ctx, ['Gen.C02Elems'])
     with ThreadPoolExecutor(1) as ex:
         fut = ex.submit(oracles)
         if gen_ok:
